@@ -131,6 +131,7 @@ type Specs struct {
 	Immutable map[string]bool // "ice.Agent.field": never changed by wildcard havocs; stores enumerated
 	LockInvs  map[string]*LockInv // "ice.handlerNotifier.Mutex"
 	CloseOnly map[string]bool     // channel fields that are only ever closed (never sent on)
+	NoEffect  map[string]bool     // func-typed fields whose calls have no effect on modelled state
 }
 
 type EnumDecl struct {
@@ -330,7 +331,7 @@ func takeProps(body string) (props []string, label string, rest string) {
 }
 
 func parseSpecs(lines []ContractLine) *Specs {
-	S := &Specs{Contracts: map[string]*Contract{}, Funcs: map[string]*SpecFunc{}, Ghosts: map[string]*GhostField{}, Consts: map[string]string{}, Immutable: map[string]bool{}, LockInvs: map[string]*LockInv{}, CloseOnly: map[string]bool{}}
+	S := &Specs{Contracts: map[string]*Contract{}, Funcs: map[string]*SpecFunc{}, Ghosts: map[string]*GhostField{}, Consts: map[string]string{}, Immutable: map[string]bool{}, LockInvs: map[string]*LockInv{}, CloseOnly: map[string]bool{}, NoEffect: map[string]bool{}}
 	var cur *Contract
 	errf := func(l ContractLine, f string, a ...any) {
 		S.Errors = append(S.Errors, fmt.Sprintf("%s:%d: %s", l.File, l.Line, fmt.Sprintf(f, a...)))
@@ -482,6 +483,12 @@ func parseSpecs(lines []ContractLine) *Specs {
 			}
 			S.Immutable[f[0]] = true
 			S.Enumerate = append(S.Enumerate, EnumDecl{Props: props, Kind: "stores", Args: f, File: l.File, Line: l.Line, Src: "immutable " + rest})
+			cur = nil
+		case "noeffect":
+			// noeffect pkg.Type.funcField: calling the function stored in this field does not touch modelled state
+			for _, f := range strings.Fields(strings.ReplaceAll(body, ",", " ")) {
+				S.NoEffect[f] = true
+			}
 			cur = nil
 		case "closeonly":
 			for _, f := range strings.Fields(strings.ReplaceAll(body, ",", " ")) {
